@@ -23,6 +23,7 @@ def run(chk):
         case['iters'] = min(case['iters'], 150 if thorough else 80)
         if _ % 3 == 1:      # the objective fails at a few evaluations; the caller catches the exception and goes on
             case['fail_at'] = sorted(rng.sample(range(3, max(6, case['iters'])), 3)); case['eps'] = 1e-9
+            case['exc'] = rng.choice(['RuntimeError', 'KeyboardInterrupt', 'SystemExit', 'ZeroDivisionError'])
         if _ % 4 == 0:      # the search is resumed (Solve on an exhausted budget, budget raised) several times
             case['n'] = max(case['n'], 2)
             case['lo'], case['hi'] = H.random_box(rng, case['n'])
@@ -46,12 +47,13 @@ def run(chk):
                 break
     # long runs with a quiet late phase (neither M nor z* changes for thousands of iterations): binary64 arg-max check at every step
     longs = []
-    plans = [('hinge', 1, 16000), ('rootabs', 1, 2500), ('sin', rng.choice([2, 5, 16]), 1500), ('2d', rng.choice([2, 5]), 600), ('2dresume', 1, 1200), ('3dresume', 1, 800)]
+    plans = [('cone', 1, 300), ('hinge', 1, 16000), ('rootabs', 1, 2500), ('sin', rng.choice([2, 5, 16]), 1500), ('2d', rng.choice([2, 5]), 600), ('2dresume', 1, 1200), ('3dresume', 1, 800)]
     if thorough:
         plans += [('sin', 1, 16000), ('const', 1, 16000), ('2dflat', 1, 9000), ('hinge', 16, 4000), ('rootabs', 1, 6000), ('2d', 16, 2000)]
     for kind, batch, iters in plans:
         a = round(rng.uniform(0.2, 0.5), 3)
         obj = {'hinge': {'kind': 'pwl1d', 'xs': [0.0, a - 0.17, a + 0.23, 1.0], 'vs': [a - 0.17, 0.0, 0.0, 0.77 - a]},      # a flat basin: uniform refinement inside, a quiet late phase
+               'cone': {'kind': 'cones', 'centers': [[round(rng.uniform(0.2, 0.8), 3)]], 'slopes': [1.0], 'offsets': [0.0]},      # driven to the resolution of binary64: ends in the method's own guard, never in a repeated point
                'rootabs': {'kind': 'rootabs', 'c': [round(rng.uniform(0.2, 0.8), 3)], 'q': rng.choice([0.5, 0.7])},      # Hoelder, not Lipschitz, at the minimiser: M keeps growing on ever closer pairs
                'sin': {'kind': 'sin', 'w': [round(rng.uniform(2, 9), 2)], 'a': [1.0]}, 'const': {'kind': 'const', 'c': 0.5},
                '2dflat': {'kind': 'cones', 'centers': [[0.5, 0.5]], 'slopes': [0.01], 'offsets': [0.0]},
